@@ -335,6 +335,46 @@ def holdsBuild (c : IPText) (host : Text) (port : Nat) (payload : Bytes) (o : BO
     | .ok d => sameDest c host d.host && d.port == port && d.payload == payload
     | .fail _ => false))
 
+/-! ### What the listener does with the parsed request -/
+
+/-- Policy of the listener, not of the RFC: DNS-over-TLS to the virtual DNS address is refused so
+that the system falls back to UDP DNS. -/
+def dotIntercept (host : Text) (port : Nat) : Bool :=
+  host == [49, 48, 46, 48, 46, 48, 46, 49] && port == 853      -- "10.0.0.1"
+
+/-- Success reply to UDP ASSOCIATE: `REP = 0`, BND.PORT the relay's port, BND.ADDR the relay's
+address when it is IPv4 (for an IPv6-only relay address the code answers `0.0.0.0`; tolerated). -/
+def bindReply (ip : Bytes) (port : Nat) (r : Bytes) : Bool :=
+  isReply 0 r && r.drop (r.length - 2) == encPort port &&
+  (match to4 ip with
+   | some b => r == [5, 0, 0, 1] ++ b ++ encPort port
+   | none => true)
+
+/-- **The connection property on one observation**: a rejected negotiation creates nothing and is
+closed after the prescribed reply; an accepted CONNECT hands the tunnel creator exactly the RFC's
+host text and port, this listener's mapping identity, and every byte that followed the request,
+then reports success (`REP = 0`) or failure as the creator did; an accepted UDP ASSOCIATE creates
+the relay and announces its address. -/
+def holdsConn (c : IPText) (cfg : ConnCfg) (input : Bytes) (o : ConnObs) : Bool :=
+  match decodeNeg listenerProfile input with
+  | .reject why _ pre =>
+    o.events.isEmpty && o.closed && pre.isPrefixOf o.written && replyFor why (o.written.drop pre.length)
+  | .accept cmd a port used pre =>
+    pre.isPrefixOf o.written &&
+    (if cmd = 1 then
+      if dotIntercept (hostText c a) port || !cfg.hasTunnel then
+        o.events.isEmpty && o.closed && isFailureReply (o.written.drop pre.length)
+      else
+        o.events == [.tunnel cfg.mapping cfg.target (hostText c a) port cfg.secret (input.drop used)] &&
+        (if cfg.tunnelOk then !o.closed && isReply 0 (o.written.drop pre.length)
+         else o.closed && isFailureReply (o.written.drop pre.length))
+    else
+      if !cfg.hasRelay then o.events.isEmpty && o.closed && isReply 7 (o.written.drop pre.length)
+      else
+        o.events == [.relay cfg.mapping cfg.target cfg.secret] &&
+        (if cfg.relayOk then !o.closed && bindReply cfg.bindIP cfg.bindPort (o.written.drop pre.length)
+         else o.closed && isFailureReply (o.written.drop pre.length)))
+
 /-! ### Datagrams relayed to the tunnels -/
 
 /-- What the tunnels must receive for the datagrams `ds`: one `SendPacket` per datagram the RFC gives
